@@ -392,7 +392,13 @@ func (h *histCtx) applyOp(op histOp) bool {
 				h.viol("retention-removed-young-run", op.Kind, "%s(%s, %d days) removed run %s started %v, cut-off %v", op.Kind, path, days, r.id[:8], r.started.Format(time.RFC3339Nano), cutoff.Format(time.RFC3339Nano))
 			}
 			if r.open {
+				// the run goes on and ends after its record was removed (a DAG deleted while it runs): its last
+				// write and its close must not bring anything of it back
+				h.marker++
+				_ = r.db.Write(mkStatus(r.id, "n", h.marker, dagsched.StatusSuccess))
+				_ = r.db.Close()
 				r.open = false
+				bump(h.out, "run_ended_after_its_record_was_removed")
 			}
 			r.removed = true
 			bump(h.out, "retention_removed_run")
